@@ -187,11 +187,15 @@ Fixpoint is_prefix (a b : list kind) : bool :=
   end.
 
 (** Correspondence case: the trace of API-level events of one run, and for each
-    direction what the recording proxy saw on the wire and whether that
-    direction ended in an orderly way (FIN seen after everything written). *)
-Definition wire_ok (p : peer) (tr : list label) (seen : list kind) (orderly : bool) : bool :=
+    direction what the recording proxy saw on the wire and whether that record
+    must be complete.  A peer that closes while PDUs of the other side are still
+    unread resets the connection, and a tail of what it wrote itself may then be
+    lost before the recorder (legitimate non-determinism of TCP, the [LLose] of the
+    transition system); when the driver knows that the writer closed with nothing
+    unread, the close was an orderly FIN and everything it wrote must be there. *)
+Definition wire_ok (p : peer) (tr : list label) (seen : list kind) (complete : bool) : bool :=
   is_prefix seen (wire_of p tr) &&
-  (negb orderly || (Nat.eqb (length seen) (length (wire_of p tr)))).
+  (negb complete || (Nat.eqb (length seen) (length (wire_of p tr)))).
 Definition check_case (c : list label * (list kind * bool) * (list kind * bool)) : bool :=
   let '(tr, (w_rq, o_rq), (w_ac, o_ac)) := c in
   lts_accepts tr && wire_ok Requestor tr w_rq o_rq && wire_ok Acceptor tr w_ac o_ac.
